@@ -31,6 +31,25 @@ theorem map2 (C : α → β → γ) (r1 : ∀ a, L a a) (r2 : ∀ b, L2 b b)
   (map (fun x => C x b) (fun _ _ hx => h _ _ _ _ hx (r2 b)) h1).trans
     (map (fun y => C a' y) (fun _ _ hy => h _ _ _ _ (r1 a') hy) h2)
 
+theorem map3 {δ ε : Type} {L3 : δ → δ → Prop} {L4 : ε → ε → Prop} (C : α → β → δ → ε)
+    (r1 : ∀ a, L a a) (r2 : ∀ b, L2 b b) (r3 : ∀ c, L3 c c)
+    (h : ∀ a a' b b' c c', L a a' → L2 b b' → L3 c c' → L4 (C a b c) (C a' b' c'))
+    {a a' : α} {b b' : β} {c c' : δ} (h1 : Chain L a a') (h2 : Chain L2 b b') (h3 : Chain L3 c c') :
+    Chain L4 (C a b c) (C a' b' c') :=
+  ((map (fun x => C x b c) (fun _ _ hx => h _ _ _ _ _ _ hx (r2 b) (r3 c)) h1).trans
+    (map (fun y => C a' y c) (fun _ _ hy => h _ _ _ _ _ _ (r1 a') hy (r3 c)) h2)).trans
+    (map (fun z => C a' b' z) (fun _ _ hz => h _ _ _ _ _ _ (r1 a') (r2 b') hz) h3)
+
+theorem map4 {δ ε ζ : Type} {L3 : δ → δ → Prop} {L4 : ε → ε → Prop} {L5 : ζ → ζ → Prop} (C : α → β → δ → ε → ζ)
+    (r1 : ∀ a, L a a) (r2 : ∀ b, L2 b b) (r3 : ∀ c, L3 c c) (r4 : ∀ d, L4 d d)
+    (h : ∀ a a' b b' c c' d d', L a a' → L2 b b' → L3 c c' → L4 d d' → L5 (C a b c d) (C a' b' c' d'))
+    {a a' : α} {b b' : β} {c c' : δ} {d d' : ε}
+    (h1 : Chain L a a') (h2 : Chain L2 b b') (h3 : Chain L3 c c') (h4 : Chain L4 d d') :
+    Chain L5 (C a b c d) (C a' b' c' d') :=
+  (map3 (L4 := L5) (fun x y z => C x y z d) r1 r2 r3
+      (fun _ _ _ _ _ _ hx hy hz => h _ _ _ _ _ _ _ _ hx hy hz (r4 d)) h1 h2 h3).trans
+    (map (fun w => C a' b' c' w) (fun _ _ hw => h _ _ _ _ _ _ _ _ (r1 a') (r2 b') (r3 c') hw) h4)
+
 theorem prod (r1 : ∀ a, L a a) (r2 : ∀ b, L2 b b) {a a' : α} {b b' : β}
     (h1 : Chain L a a') (h2 : Chain L2 b b') :
     Chain (fun (p q : α × β) => L p.1 q.1 ∧ L2 p.2 q.2) (a, b) (a', b') :=
